@@ -10,7 +10,7 @@ for d in /verif/seeded/*/; do
   (cd /verif && NAUNET_REPO=$wt /venv/bin/python -m sa.check $prop --tier quick --no-evidence >/tmp/seedreg.$$.log 2>&1); rc=$?
   others=""
   if [ "$1" = "--all" ]; then
-    for p in C01 C02 C03 C04 C05 C06 C07 C09 C10 C11 C12 C13 C14 C15 C16 C17 C18 C19 C20; do
+    for p in C01 C02 C03 C04 C05 C06 C07 C08 C09 C10 C11 C12 C13 C14 C15 C16 C17 C18 C19 C20; do
       [ $p = $prop ] && continue
       (cd /verif && NAUNET_REPO=$wt /venv/bin/python -m sa.check $p --tier quick --no-evidence >/dev/null 2>&1); r=$?
       [ $r -ne 0 ] && others="$others $p:$r"
